@@ -7,14 +7,19 @@ the regenerated Coq tables (coq/Gen/*.v) and the Coq project (full .vo build).
 import fcntl, hashlib, json, os, random, re, shutil, subprocess, sys, time, glob
 
 VERIF = os.path.dirname(os.path.dirname(os.path.dirname(os.path.abspath(__file__))))
-REPO = os.environ.get("VERIF_REPO", "/repo")
-WORK = os.path.join(VERIF, ".work")
+REPO = os.path.abspath(os.environ.get("VERIF_REPO", "/repo"))
+ALT = REPO != "/repo"
+# Alternate-repository mode (VERIF_REPO=/some/worktree): used to try the checks against a mutated
+# copy of gopherjs without touching /repo. Everything derived from the repository (binaries,
+# regenerated tables, compiled Coq project, evidence, replays) then lives in a separate work dir.
+WORK = os.path.join(VERIF, ".work") if not ALT else os.path.join(VERIF, ".work", "alt-" + hashlib.sha256(REPO.encode()).hexdigest()[:10])
 BIN = os.path.join(WORK, "bin")
-COQ = os.path.join(VERIF, "coq")
+COQ_SRC = os.path.join(VERIF, "coq")
+COQ = COQ_SRC if not ALT else os.path.join(WORK, "coq")
 OVERLAY_SRC = os.path.join(VERIF, "harness", "go", "repo_overlay")
 JS = os.path.join(VERIF, "harness", "js")
-EVIDENCE = os.path.join(VERIF, "evidence")
-REPLAYS = os.path.join(VERIF, "replays")
+EVIDENCE = os.path.join(VERIF, "evidence") if not ALT else os.path.join(WORK, "evidence")
+REPLAYS = os.path.join(VERIF, "replays") if not ALT else os.path.join(WORK, "replays")
 KNOWN = os.path.join(VERIF, "known_findings.txt")
 NCPU = os.cpu_count() or 4
 
@@ -30,7 +35,6 @@ def goenv():
     e = dict(os.environ)
     e.update(GOFLAGS="-mod=mod", GOPROXY="off", GOSUMDB="off", GOTOOLCHAIN="local",
              GOPHERJS_SKIP_VERSION_CHECK="true", CGO_ENABLED="0")
-    e.setdefault("GOCACHE", os.path.join(WORK, "gocache"))
     return e
 
 
@@ -179,7 +183,16 @@ def write_if_changed(path, text):
     return True
 
 
+def sync_alt_coq():
+    """alt mode: mirror /verif/coq (sources and compiled files, mtimes kept) into the alt work dir"""
+    if ALT:
+        os.makedirs(COQ, exist_ok=True)
+        sh(["rsync", "-a", "--exclude", "Gen/", "--exclude", "_CoqProject", "--exclude", "Makefile*", "--exclude", ".Makefile.d",
+            COQ_SRC + "/", COQ + "/"])
+
+
 def coq_project():
+    sync_alt_coq()
     txt = "-Q . Verif\n-arg -w -arg -notation-overridden,-deprecated-hint-without-locality,-deprecated-instance-without-locality,-deprecated-hint-rewrite-without-locality,-ambiguous-paths\n" + "\n".join(coq_sources()) + "\n"
     changed = write_if_changed(os.path.join(COQ, "_CoqProject"), txt)
     if changed or not os.path.exists(os.path.join(COQ, "Makefile")):
@@ -299,8 +312,11 @@ def make_rng(seed, stream=""):
 def load_known():
     """lines:  finding: property=<ID> key=<signature> <text>     fixed: property=<ID> <commit> <text>"""
     res = []
-    if os.path.exists(KNOWN):
-        for line in open(KNOWN):
+    files = [KNOWN] + sorted(glob.glob(os.path.join(VERIF, "known_findings.d", "*.txt")))
+    for fn in files:
+        if not os.path.exists(fn):
+            continue
+        for line in open(fn):
             line = line.strip()
             m = re.match(r"finding:\s+property=(\S+)\s+key=(\S+)\s+(.*)", line)
             if m:
